@@ -162,6 +162,19 @@ func (d *D) Of(v ssa.Value) string {
 		return "make(" + typeShort(x.Type()) + ")"
 	case *ssa.MakeChan:
 		return "make(" + typeShort(x.Type()) + ")"
+	case *ssa.Select:
+		var st []string
+		for _, x := range x.States {
+			dir := "<-"
+			if x.Dir == types.SendOnly {
+				dir = "->"
+			}
+			st = append(st, dir+d.Of(x.Chan))
+		}
+		if !x.Blocking {
+			st = append(st, "default")
+		}
+		return "select(" + strings.Join(st, ",") + ")"
 	case *ssa.Next, *ssa.Range:
 		return "iter:" + v.Name()
 	}
